@@ -144,7 +144,7 @@ PROPS = {
         "assumptions": ["fault-free apart from the crash; collision-free checksums"],
     },
     "C20": {
-        "modules": ["CasModel.Props.C03", "CasModel.Props.C10"],
+        "modules": ["CasModel.Props.C03", "CasModel.Props.C10", "CasModel.Props.C16"],
         "obligations": ["C20_wellformed_records", "reachable_good", "segInsert_sorted", "flat_segInsert_some",
                         "C16_segment_roundtrip", "C16_index_roundtrip"],
         "full": ["C20_wellformed_records"],
